@@ -708,6 +708,16 @@ class BlockBase(Base):
                 # NOTE: if the match subsequently fails then we must
                 #       delete this symbol table.
                 table_name = obj.get_scope_name()
+                # A top-level table of this name may already exist (from
+                # an earlier parse), in which case it is re-used and must
+                # not be deleted if the match fails.
+                new_table = True
+                if not SYMBOL_TABLES.current_scope:
+                    try:
+                        SYMBOL_TABLES.lookup(table_name)
+                        new_table = False
+                    except KeyError:
+                        pass
                 SYMBOL_TABLES.enter_scope(table_name, obj)
             # Store the index of the start of this block proper (i.e.
             # excluding any comments)
@@ -895,8 +905,9 @@ class BlockBase(Base):
             # clean up the symbol table
             if table_name:
                 SYMBOL_TABLES.exit_scope()
-                # Remove any symbol table that we created
-                SYMBOL_TABLES.remove(table_name)
+                if new_table:
+                    # Remove any symbol table that we created
+                    SYMBOL_TABLES.remove(table_name)
             raise
 
         if table_name:
@@ -906,7 +917,7 @@ class BlockBase(Base):
             # We did not get a match from any of the subclasses or
             # failed to find the endcls
             if endcls is not None:
-                if table_name:
+                if table_name and new_table:
                     # Remove any symbol table that we created
                     SYMBOL_TABLES.remove(table_name)
                 for obj in reversed(content):
